@@ -216,3 +216,22 @@ def path_guards(body, c, bb, term_at):
             if len(c.pred[edge]) == 1 and (c.dominates(edge, bb) or edge == bb) and not (c.dominates(other, bb) or other == bb):
                 out.append((b.idx, term_at(b), truth))
     return out
+
+
+def spine_ops(t, out=None):
+    """Arithmetic operators applied to the value itself (not inside the arguments of the calls that produce it)."""
+    out = set() if out is None else out
+    if not isinstance(t, tuple) or not t:
+        return out
+    if not isinstance(t[0], str):
+        for x in t:
+            spine_ops(x, out)
+        return out
+    if t[0] == "call":
+        return out
+    if t[0] in ("Add", "Sub", "Mul", "Shl", "Shr", "BitAnd", "BitOr", "BitXor", "Div", "Rem"):
+        out.add(t[0])
+    for x in t[1:]:
+        if isinstance(x, tuple):
+            spine_ops(x, out)
+    return out
